@@ -44,7 +44,11 @@ def run_check(prop: str, tier: str, seed: int) -> int:
         from . import purity
 
         # shared rule M first: no incompletely keyed memo / hidden state in the modules the property is anchored in
-        purity.check_modules(ctx, f"{prop}-m", anchored_modules(prop))
+        # (anchored modules first, then the rest of the package: a stale memo in a facade or helper module
+        # breaks every property whose functions are reached through it)
+        anchored = anchored_modules(prop)
+        rest = [m for m in sorted(program.modules) if m not in anchored and not m.endswith("__init__") and program.modules[m].functions | program.modules[m].classes]
+        purity.check_modules(ctx, f"{prop}-m", anchored + rest)
         try:
             mod.check(ctx)
         except AnalysisError as e:
